@@ -364,6 +364,10 @@ func formatFloat(f float64, bitSize int) string {
 		// "4611686018427388000" for 2^62) would name another number.
 		return strconv.FormatFloat(f, 'f', 0, 64)
 	}
+	if math.Abs(f) >= 1e-4 && math.Abs(f) < 1e21 {
+		// A price of 1234567.5 is written that way, not as 1.2345675e+06.
+		return strconv.FormatFloat(f, 'f', -1, bitSize)
+	}
 	return strconv.FormatFloat(f, 'g', -1, bitSize)
 }
 
